@@ -353,6 +353,21 @@ def stepHist (w : World) (ws : List String) : Option (World × String) :=
     else
       let c := consumeList pat m.iterElements
       pure (w', "ok " ++ showList (fun (p : Nat × String) => s!"{p.1}:{p.2}") c)
+  | ["mulz", side, oa, n, k, ob, m] => do
+    -- product with ONE operand of zero-sized elements (each acts as a multiplicative unit): numeric
+    -- operand values 1, 2, …; the zero-sized operand takes the zero-sized paths of the model
+    let oa ← parseOrder oa; let ob ← parseOrder ob; let n ← n.toNat?; let k ← k.toNat?; let m ← m.toNat?
+    let nums := fun (o : Order) (r c : Nat) => (⟨o, (Shape.mk r c).toAxis o, ((List.range (r * c)).map (· + 1)).toArray⟩ : Matrix Nat)
+    let units := fun (o : Order) (r c : Nat) => (⟨o, (Shape.mk r c).toAxis o, Array.replicate (r * c) ()⟩ : Matrix Unit)
+    let render := fun (res : M (Except Error (Matrix Nat))) =>
+      match res with
+      | .error e => faultStr e
+      | .ok (.error e) => "err " ++ e.name
+      | .ok (.ok c) => s!"ok {ordStr c.order} {c.nrows}x{c.ncols} " ++ showList toString c.data.toList
+    if side = "RZ" then
+      pure (w, render ((nums oa n k).multiply false true 8 (units ob k m) (fun x _ => x) (· + ·) 0))
+    else
+      pure (w, render ((units oa n k).multiply true false 8 (nums ob k m) (fun _ y => y) (· + ·) 0))
   | ["mul", dst, a, b, kind] => do
     -- kind: multiply | like | op_oo | op_ob | op_bo | op_bb (operator *, owned/borrowed self and rhs)
     let dst ← dst.toNat?; let a ← a.toNat?; let b ← b.toNat?
